@@ -11,6 +11,9 @@ _expm_krylov.  Extracted (python ast, canonical statement text):
   ns_scale_once     every `_expm_krylov(...)` call passes (alpha[:j+1], beta[:j], V[:j+1...].T, nrmv, dt) and the kernel returns
                     V @ xp.asarray(u_hess @ (v_norm * np.exp(dt * w_hess) * u_hess[0]))
   ns_atol_scaled    the convergence test is xp.allclose(res, new_res, atol=1e-8 * nrmv)   (false: default absolute tolerance)
+  ns_fallback_consistent   _expm_krylov: `try: w_hess, u_hess = eigh_tridiagonal(alpha, beta)  except np.linalg.LinAlgError:` builds the dense
+                    matrix h as a sum of np.diag(alpha), np.diag(beta, k=-1), np.diag(beta, k=1) and calls np.linalg.eigh(h[, UPLO=..]):
+                    true iff both off-diagonals are present, or exactly the triangle that eigh reads (UPLO, default 'L' = k=-1) is filled
 
 The prologue of expm_krylov (everything before the `for`) must consist of exactly the known statements; for the
 normalisation statement a few alternatives are recognised (they flip a constant, so that `src_norm = ref_norm`
@@ -21,7 +24,7 @@ import sys
 
 TARGET = "Gen/KrylovNorm.v"
 FILE = "renormalizer/lib/krylov/krylov.py"
-FIELDS = ["ns_two_norm", "ns_unconditional", "ns_out_of_place", "ns_first_row", "ns_scale_once", "ns_atol_scaled"]
+FIELDS = ["ns_two_norm", "ns_unconditional", "ns_out_of_place", "ns_first_row", "ns_scale_once", "ns_atol_scaled", "ns_fallback_consistent"]
 
 
 class TranslateError(Exception):
@@ -117,6 +120,39 @@ def extract(src):
                 if any(isinstance(e, ast.Name) and e.id in ("v_norm", "V", "dt") for e in ast.walk(t)):
                     raise TranslateError("_expm_krylov rebinds v_norm / V / dt")
     sh["ns_scale_once"] = True
+    # the fallback branch of the kernel
+    kb = strip_doc(k.body)
+    tries = [x for x in kb if isinstance(x, ast.Try)]
+    if len(tries) != 1 or len(kb) != 2 or kb[0] is not tries[0]:
+        raise TranslateError("_expm_krylov: expected `try: ... except ...` followed by the return")
+    t = tries[0]
+    if [U(x) for x in t.body] != ["w_hess, u_hess = eigh_tridiagonal(alpha, beta)"] or t.orelse or t.finalbody or len(t.handlers) != 1:
+        raise TranslateError("_expm_krylov: try body / handlers")
+    h = t.handlers[0]
+    if h.type is None or U(h.type) != "np.linalg.LinAlgError":
+        raise TranslateError("_expm_krylov: the handler catches %s" % (U(h.type) if h.type is not None else "everything"))
+    hb = [x for x in h.body if not (isinstance(x, ast.Expr) and isinstance(x.value, ast.Call) and U(x.value.func).startswith("logger."))]
+    if len(hb) != 2 or not (isinstance(hb[0], ast.Assign) and U(hb[0].targets[0]) == "h") or not isinstance(hb[1], ast.Assign) or U(hb[1].targets[0]) not in ("w_hess, u_hess", "(w_hess, u_hess)"):
+        raise TranslateError("_expm_krylov: fallback statements %s" % [U(x)[:80] for x in h.body])
+    terms = []
+    def flat(e):
+        if isinstance(e, ast.BinOp) and isinstance(e.op, ast.Add):
+            flat(e.left); flat(e.right)
+        else:
+            terms.append(U(e))
+    flat(hb[0].value)
+    known = {"np.diag(alpha)": "d", "np.diag(beta, k=-1)": "l", "np.diag(beta, -1)": "l", "np.diag(beta, k=1)": "u", "np.diag(beta, 1)": "u"}
+    if any(x not in known for x in terms) or sorted(known[x] for x in terms) not in (["d", "l", "u"], ["d", "l"], ["d", "u"]):
+        raise TranslateError("_expm_krylov: fallback matrix %s" % U(hb[0].value)[:200])
+    parts = {known[x] for x in terms}
+    call = hb[1].value
+    if not (isinstance(call, ast.Call) and U(call.func) == "np.linalg.eigh" and [U(a) for a in call.args] == ["h"]):
+        raise TranslateError("_expm_krylov: fallback solver %s" % U(call)[:120])
+    kw = {q.arg: U(q.value) for q in call.keywords}
+    if set(kw) - {"UPLO"} or kw.get("UPLO", "'L'") not in ("'L'", "'U'"):
+        raise TranslateError("_expm_krylov: np.linalg.eigh keywords %s" % kw)
+    reads = "l" if kw.get("UPLO", "'L'") == "'L'" else "u"
+    sh["ns_fallback_consistent"] = parts == {"d", "l", "u"} or parts == {"d", reads}
     tests = [n for n in ast.walk(f) if isinstance(n, ast.Call) and U(n.func) == "xp.allclose"]
     if len(tests) != 1:
         raise TranslateError("expm_krylov: %d xp.allclose calls (expected the convergence test only)" % len(tests))
